@@ -79,11 +79,11 @@ type c18Site struct {
 }
 
 type c18Component struct {
-	Name    string     `json:"name"`
-	Kind    string     `json:"kind"`
-	Variant string     `json:"variant"`
-	Specs   []c18Spec  `json:"specs"`
-	Sites   []c18Site  `json:"sites"`
+	Name    string    `json:"name"`
+	Kind    string    `json:"kind"`
+	Variant string    `json:"variant"`
+	Specs   []c18Spec `json:"specs"`
+	Sites   []c18Site `json:"sites"`
 }
 
 type c18Facts struct {
@@ -413,11 +413,11 @@ func c18GoType(k *c18Vkind) string {
 }
 
 type c18Obs struct {
-	errCount     int              // specification.ValidationError entries
-	errKeys      []string         // keys named by the messages (complete iff keysComplete)
+	errCount     int      // specification.ValidationError entries
+	errKeys      []string // keys named by the messages (complete iff keysComplete)
 	keysComplete bool
 	unsupported  []string
-	otherErrors  []string         // messages added by the component itself (not ValidationErrors)
+	otherErrors  []string // messages added by the component itself (not ValidationErrors)
 	has          map[string]bool
 	stored       map[string]interface{} // value returned by the one getter that did not panic
 	probe        map[string]J
@@ -520,8 +520,9 @@ func c18EncUser(user []c18KV) []J {
 }
 
 // c18Check evaluates the property on what the implementation did.
-//   level "generic": real parameters.Parameters driven directly with `variant`;
-//   level "component": the real component's SetParameters (variant = what the property demands for its kind).
+//
+//	level "generic": real parameters.Parameters driven directly with `variant`;
+//	level "component": the real component's SetParameters (variant = what the property demands for its kind).
 func c18Check(level string, comp *c18Component, variant string, user []c18KV, real *c18Real, o *c18Obs) {
 	invalid, unknown, unsure := 0, 0, 0
 	for _, kv := range user {
